@@ -2188,8 +2188,11 @@ evhttp_add_header(struct evkeyvalq *headers,
 	// tchar          = "!" / "#" / "$" / "%" / "&" / "'" / "*" / "+" / "-" / "." / "^" / "_" / "`" / "|" / "~" / 0-9 / A-Z / a-z
 	/* For simplicity, we'll reject field-names containing the documented most dangerous characters */
 	// "Field values containing CR, LF, or NUL characters are invalid and dangerous, due to the varying ways that implementations might parse and interpret those characters; a recipient of CR, LF, or NUL within a field value MUST either reject the message or replace each of those characters with SP before further processing or forwarding of that message."
-	if (strchr(key, '\r') != NULL || strchr(key, '\n') != NULL || key[0] == '\0') {
-		/* drop illegal headers */
+	if (key[0] == '\0' ||
+	    key[strspn(key, "!#$%&'*+-.^_`|~0123456789"
+		"abcdefghijklmnopqrstuvwxyzABCDEFGHIJKLMNOPQRSTUVWXYZ")] != '\0') {
+		/* drop illegal headers: a name with ':' or whitespace in it
+		 * would read as a different field on the wire */
 		event_debug(("%s: dropping illegal header key\n", __func__));
 		return (-1);
 	}
